@@ -1,3 +1,3 @@
 import Driver.Loop
-/- stub: no executable model for C05 yet -/
-def main : IO UInt32 := CelerVerif.runDriver (fun (s : Unit) _ => (s, "bad-op")) ()
+import CelerVerif.Model.StepDriver
+def main : IO UInt32 := CelerVerif.runDriver CelerVerif.Step.driverStep ⟨0.1, 0.2, 0.0, 1e-8⟩
